@@ -1,5 +1,6 @@
 import FH.Driver.Rules
 import FH.Driver.World
+import FH.Driver.Select
 open FH FH.Driver
 
 inductive DState where
@@ -21,6 +22,10 @@ def handleLine (st : DState) (line : String) : DState × String :=
       | none => (st, id ++ " bad-case")
     else if cmd == "regdecode" then
       match handleRegDecode fs with
+      | some a => (st, id ++ " " ++ a)
+      | none => (st, id ++ " bad-case")
+    else if cmd == "select" then
+      match handleSelect fs with
       | some a => (st, id ++ " " ++ a)
       | none => (st, id ++ " bad-case")
     else if cmd == "ana" then
